@@ -142,7 +142,13 @@ func init() {
 		lv := NewC03(tier)
 		lv.Leave = true
 		lv.Nonces = 2
+		// the same on Minter, whose events are numbered by the connectors (there is no contract that counts them)
+		mi := NewC03(tier)
+		mi.Chain = "minter"
+		mcfg := cfg
+		mcfg.MaxDepth = cfg.MaxDepth - 1
 		return []MultiCase{{Name: "three bonded validators", Spec: NewC03(tier), Cfg: cfg},
+				{Name: "three bonded validators, chain minter", Spec: mi, Cfg: mcfg},
 				{Name: "validator A leaves (record removed) and is created again", Spec: lv, Cfg: lcfg}}, []string{
 				"3 bonded validators of equal power 10 (threshold floor(66*30/100)=19: two votes needed), one chain (ethereum), deposit events only",
 				"event alphabet: nonces 1..3 (1..2 in the second case), two conflicting variants per nonce; amounts are distinct powers of 4 so that the balance identifies the multiset of applied events",
